@@ -217,8 +217,8 @@ def emptyResults (n : Nat) (offset : Rat) : List Res := List.replicate n { state
 section
 variable {ρ α : Type} [Add α] [Mul α] [OfInt α]
 
-/-- the type dispatch of `anneal_quso`: `(N, model, reverse_mapping)` -/
-def dispatchQuso (L : Obj) : Except Err (Nat × Poly × List Var) :=
+/-- the type dispatch of `anneal_quso` after the `PUSOMatrix` step: `(N, model, reverse_mapping)` -/
+def dispatchQusoCore (L : Obj) : Except Err (Nat × Poly × List Var) :=
   if L.kind = .qusom then do
     let N ← match L.maxIndex with
       | some m => pure (m + 1)
@@ -227,6 +227,16 @@ def dispatchQuso (L : Obj) : Except Err (Nat × Poly × List Var) :=
   else do
     let L' ← if L.kind = .quso then pure L else Obj.build .quso L.terms
     pure (L'.vars.length, ← toQuso L', L'.mapping)
+
+/-- the type dispatch of `anneal_quso`, with its first step: `if type(L) == PUSOMatrix: L = QUSOMatrix(L)`
+("a Matrix input stays a Matrix input"; `KeyError` when a key has more than two labels).  Every other type
+goes on as it is: `QUSOMatrix` directly, `QUSO` through its mapping, anything else (dict, `PUSO`, `PCSO`, …)
+through `QUSO(L)`. -/
+def dispatchQuso (L : Obj) : Except Err (Nat × Poly × List Var) :=
+  if L.kind = .pusom then do
+    let M ← Obj.build .qusom L.terms
+    dispatchQusoCore M
+  else dispatchQusoCore L
 
 /-- the type dispatch of `anneal_puso` -/
 def dispatchPuso (H : Obj) : Except Err (Nat × Poly × List Var) :=
